@@ -10,6 +10,7 @@ from ..r_canon import rule_closure_order_consumers as _rule_closure_order, rule_
 from ..r_alias import rule_retry_flush as _rule_retry_flush
 from ..r_codebooks import rule_cx_radical_lists as _rule_cxr
 from ..r_codebooks import rule_allene_reference_choice as _rule_allene_ref
+from ..r_round8 import rule_cx_index_language as _r8_cx
 
 LEVEL = 'other'
 
@@ -34,3 +35,4 @@ def run(ck, repo):
     _rule_retry_flush(ck, repo, 'C02.D5-retry-flush', ['chython.files.daylight.smiles'], 1)
     _rule_cxr(ck, repo, 'C02.D2-cx-radical-lists', ['chython.files.daylight.smiles', 'chython.files.daylight.smarts'])
     _rule_allene_ref(ck, repo, 'C02.D3-allene-reference')
+    _r8_cx(ck, repo, 'C02.D6-cx-index-language', ['chython.files.daylight.smiles', 'chython.files.daylight.smarts'])
